@@ -258,9 +258,16 @@ def native_stress(run, case, rounds=25):
     exe = run.snap.build_server(False)
     hashes = {}
     if spec.password: hashes[spec.password] = R.password_hash(exe, spec.password)
+    # a bystander that makes the server hold the state lock for a password verification (OPER with a wrong password) just when the racing
+    # commands arrive: they queue behind it and are released together, which widens the native window of lock-related races
+    if not spec.operators:
+        spec.operators = [('opname', 'goodpw', None)]
+    for o in spec.operators: hashes[o[1]] = R.password_hash(exe, o[1])
     kinds = [e[1] for e in case.get('extra', [])]
     seen = []
-    for rd in range(rounds):
+    t_start = _t.time()
+    for rd in range(max(rounds, 150)):
+        if rd >= rounds and _t.time() - t_start > 180: break
         nicks, need_helper, setup = R.plan(spec, model)
         srv = R.Server(exe, R.make_config(spec, model, hashes, R.HELPER if need_helper else None), run.snap.dir, tag='stress')
         clients = {}
@@ -284,7 +291,10 @@ def native_stress(run, case, rounds=25):
                     if a.get('nick'): c.send('NICK ' + a['nick'])
                     if a.get('name'): c.send(f'USER {a["name"]} 0 * :Real')
                 acts.append((a, c))
+            holder = R.Client(srv.port, 'holder'); clients['holder'] = holder
+            holder.send('NICK holder'); holder.send('USER holder 0 * :Holder'); holder.barrier()
             _t.sleep(0.15)
+            if rd % 2 == 1: holder.send(f'OPER {spec.operators[0][0]} wrong-password')        # every other round
             bar = threading.Barrier(len(acts))
             def go(a, c):
                 bar.wait()
@@ -321,8 +331,8 @@ def native_stress(run, case, rounds=25):
         finally:
             for c in clients.values(): c.close()
             srv.stop()
-    run.native_replays += rounds
-    return False, f'{rounds} concurrent native rounds showed no violation of {kinds}'
+    run.native_replays += rd + 1
+    return False, f'{rd + 1} concurrent native rounds showed no violation of {kinds}'
 
 def confirm(run, cands):
     done = set()
